@@ -15,7 +15,7 @@ PLAN = {
 BUDGET = {"quick": 50, "thorough": 900}
 RULE = (
     "tasks_limit 1-5, 1-3 queues sharing it, 5-60 messages (fewer on network brokers), actor duration profiles (zero, equal, "
-    "heavy-tailed, one never-ending until its timeout), failures with retries, arrivals: all before start / in bursts while the "
+    "heavy-tailed, one never-ending until its timeout), failures with retries, bodies ending with CancelledError (in-memory, Redis), arrivals: all before start / in bursts while the "
     "worker is saturated / anchored to the loop step at which a slot frees (enqueue task spawned k = 0..6 steps after an actor "
     "exits). Monitor: number of actor bodies in progress <= tasks_limit at every entry. Liveness: every job executed within "
     "3 x sum(durations)/tasks_limit + 30 s (+ poll constants); a kernel deadlock verdict (nothing runnable, nothing scheduled) "
@@ -54,6 +54,11 @@ def gen(rng, broker, tier):
         if rng.random() < 0.1:
             j["retries"] = 1
             j["beh"] = [{"do": "raise", "dur_us": d}, {"do": "return", "dur_us": d}]
+        if rng.random() < 0.06 and broker != "rabbit":
+            # ends with CancelledError (an inner task of the actor was cancelled): the slot must come back all the same.
+            # Such a message gets no disposition at all (CancelledError is not an Exception: outside C02's "any Exception");
+            # on RabbitMQ the unacked message then counts against the prefetch window for good, so not used there.
+            j["beh"] = [{"do": "cancelled-inside", "dur_us": d}]
         if rng.random() < 0.12:
             j["ttl_s"] = rng.choice([1, 1, 2])  # may expire while waiting for a slot: must not cost a slot
         if prof == "one-hangs" and i == 0:
@@ -143,7 +148,7 @@ async def _main(sim, sc, out):
         return {jid for jid, ps in insp.items() if jobs.get(jid, {}).get("ttl_s") and any(p["place"] == "dead" for p in ps)}
 
     def all_done():
-        done_ids = {e[2] for e in state.ends if e[4] in ("return", "hang")} | expired_dead()
+        done_ids = {e[2] for e in state.ends if e[4] in ("return", "hang", "cancelled-inside")} | expired_dead()
         return all(j["id"] in done_ids for j in sc["jobs"])
 
     stall_since = None
@@ -178,7 +183,7 @@ async def _main(sim, sc, out):
     finished = all_done()
     if not finished:
         insp = world.inspect()
-        missing = [j["id"] for j in sc["jobs"] if j["id"] not in ({e[2] for e in state.ends if e[4] in ("return", "hang")} | expired_dead())]
+        missing = [j["id"] for j in sc["jobs"] if j["id"] not in ({e[2] for e in state.ends if e[4] in ("return", "hang", "cancelled-inside")} | expired_dead())]
         never_enq = [i for i in missing if i not in enq]
         really = [i for i in missing if i in enq]
         if really and not second:
